@@ -640,7 +640,7 @@ func proof03Workload(args []string) int {
 						tx.Status = got
 					}
 				}
-				if allInvalid && len(items) > 0 {
+				if allInvalid && len(items) > 0 && before != nil {
 					w.Count("obs_invalid_only_blocks", 1)
 					allowed := map[string]bool{}
 					for s := range senders {
@@ -654,8 +654,8 @@ func proof03Workload(args []string) int {
 					}
 				}
 			}
-			world.R.Close()
 			p.flush()
+			world.R.Close()
 			var sh []string
 			for k := range p.shape {
 				sh = append(sh, k)
